@@ -42,6 +42,39 @@ func messageRegions(prefix string, m protoreflect.Message, out *[]memRegion) {
 	structRegions(prefix, reflect.ValueOf(m.Interface()), out)
 }
 
+// sliceHeaders records, for every byte-string field reachable from v, the slice header the field holds.
+func sliceHeaders(prefix string, v reflect.Value, out map[string]string) {
+	if v.Kind() == reflect.Ptr {
+		if v.IsNil() {
+			return
+		}
+		v = v.Elem()
+	}
+	if v.Kind() != reflect.Struct {
+		return
+	}
+	for i := 0; i < v.NumField(); i++ {
+		f := v.Type().Field(i)
+		if !f.IsExported() {
+			continue
+		}
+		fv := v.Field(i)
+		name := prefix + f.Name
+		switch {
+		case fv.Type() == bytesType:
+			out[name] = fmt.Sprintf("nil=%v len=%d cap=%d at=%#x", fv.IsNil(), fv.Len(), fv.Cap(), fv.Pointer())
+		case fv.Type() == bytesListType:
+			out[name] = fmt.Sprintf("nil=%v len=%d cap=%d at=%#x", fv.IsNil(), fv.Len(), fv.Cap(), fv.Pointer())
+			for j := 0; j < fv.Len(); j++ {
+				e := fv.Index(j)
+				out[fmt.Sprintf("%s[%d]", name, j)] = fmt.Sprintf("nil=%v len=%d cap=%d at=%#x", e.IsNil(), e.Len(), e.Cap(), e.Pointer())
+			}
+		case fv.Kind() == reflect.Ptr:
+			sliceHeaders(name+".", fv, out)
+		}
+	}
+}
+
 var bytesType = reflect.TypeOf([]byte(nil))
 var bytesListType = reflect.TypeOf([][]byte(nil))
 
@@ -335,11 +368,17 @@ func TestC16(t *testing.T) {
 				adj(&m.SignedDataSize)
 			}
 		}
+		if len(m.ExtraBytes) == 0 && src != "parsed" && rapid.Bool().Draw(t, "emptyButPresentExtraBytes") {
+			// a message put together by hand: the trailing-bytes field present, empty, with room behind it
+			m.ExtraBytes = make([]byte, 0, 16)
+		}
 		call := rapid.SampledFrom(c16Calls).Draw(t, "call")
 		var regions []memRegion
 		messageRegions("quote.", m.ProtoReflect(), &regions)
 		regions = append(regions, capture("raw-input", raw))
 		before := proto.Clone(m)
+		headersBefore := map[string]string{}
+		sliceHeaders("quote.", reflect.ValueOf(m), headersBefore)
 		spare := false
 		for _, r := range regions {
 			if len(r.full) > r.ln {
@@ -362,6 +401,14 @@ func TestC16(t *testing.T) {
 		if !proto.Equal(before, m) {
 			gen.Fail(t, gen.Violation{Key: "message-changed:" + call.name, Oracle: "the quote message is unchanged by the call", Detail: fmt.Sprintf("source=%s call=%s", src, call.name), Replay: rp})
 			return
+		}
+		headersAfter := map[string]string{}
+		sliceHeaders("quote.", reflect.ValueOf(m), headersAfter)
+		for name, h := range headersBefore {
+			if headersAfter[name] != h {
+				gen.Fail(t, gen.Violation{Key: "message-changed:" + call.name + ":field-header:" + name, Oracle: "checking and serialising never write to the quote message (a byte-string field stays the very slice it was: nil or not, its length, its capacity, where it points)", Detail: fmt.Sprintf("source=%s call=%s: field %s was %s, is %s", src, call.name, name, h, headersAfter[name]), Replay: rp})
+				return
+			}
 		}
 		if src == "parsed" {
 			for _, r := range regions[:len(regions)-1] {
@@ -590,6 +637,11 @@ func TestC16(t *testing.T) {
 				siblings = append(siblings, b)
 				b = append([]byte{}, w.Raw...)
 				b[770+s.Intn(384)] ^= 1 << uint(s.Intn(8))
+				siblings = append(siblings, b)
+				// both signatures wrong at once (the quote signature and the QE report signature)
+				b = append([]byte{}, w.Raw...)
+				b[636+s.Intn(64)] ^= 1 << uint(s.Intn(8))
+				b[1154+s.Intn(64)] ^= 1 << uint(s.Intn(8))
 				siblings = append(siblings, b)
 			}
 			runSibling := func(k int) string {
